@@ -304,15 +304,12 @@ func checkC11(c *Ctx) {
 		// spawns the verification under claim, tracked
 		var verify []*ssa.Function
 		eachInstr(r, func(in ssa.Instruction) {
-			if g, ok := in.(*ssa.Go); ok {
-				for _, t := range m.funcValueTargets(g.Call.Value) {
+			if sp := m.spawnAt(in); sp != nil {
+				for _, t := range sp.Targets {
 					verify = append(verify, t)
 					gs := m.GuardsAt(in)
 					c.check(m.claimLit(gs, true), "R4", "verification only for a leader in "+rn, in, "guards at go: %s", fmtLits(gs))
-					c.check(m.goTracked(g), "R4", "verification goroutine tracked in "+rn, in, "wg.Add(1) before go and deferred wg.Done in the goroutine")
-				}
-				if sc := g.Call.StaticCallee(); sc != nil {
-					verify = append(verify, sc)
+					c.check(sp.Tracked, "R4", "verification goroutine tracked in "+rn, in, "wg.Add(1) before go and deferred wg.Done in the goroutine")
 				}
 			}
 		})
